@@ -58,6 +58,10 @@ type MyInt int
 type MyStr string
 type MyFloat float64
 type MyBool bool
+type MyU64 uint64
+type MyU8 uint8
+type MyI8 int8
+type MyF32 float32
 type MyList []int
 type MyMap map[string]string
 
@@ -95,6 +99,8 @@ var leaves = map[string]leafInfo{
 	"MyInt": {reflect.TypeOf(MyInt(0)), []string{"int"}}, "MyStr": {reflect.TypeOf(MyStr("")), []string{"string"}},
 	"MyFloat": {reflect.TypeOf(MyFloat(0)), []string{"float64"}}, "MyBool": {reflect.TypeOf(MyBool(false)), []string{"bool"}},
 	"Duration": {reflect.TypeOf(time.Duration(0)), []string{"int64"}},
+	"MyU64": {reflect.TypeOf(MyU64(0)), []string{"uint64"}}, "MyU8": {reflect.TypeOf(MyU8(0)), []string{"uint8"}},
+	"MyI8": {reflect.TypeOf(MyI8(0)), []string{"int8"}}, "MyF32": {reflect.TypeOf(MyF32(0)), []string{"float32"}},
 	"MyList":   {reflect.TypeOf(MyList(nil)), []string{"slice", "int"}},
 	"MyMap":    {reflect.TypeOf(MyMap(nil)), []string{"map", "string"}},
 	"Rec":      {reflect.TypeOf(Rec{}), []string{"s2", "int64"}},
@@ -187,6 +193,10 @@ func init() {
 	regLeaf[MyFloat]("MyFloat")
 	regLeaf[MyBool]("MyBool")
 	regLeaf[time.Duration]("Duration")
+	regLeaf[MyU64]("MyU64")
+	regLeaf[MyU8]("MyU8")
+	regLeaf[MyI8]("MyI8")
+	regLeaf[MyF32]("MyF32")
 	regLeaf[MyList]("MyList")
 	regLeaf[MyMap]("MyMap")
 	regLeaf[Rec]("Rec")
@@ -953,7 +963,7 @@ func handle(req N) (resp N) {
 
 var genCtors = []string{"ptr", "slice", "arr1", "arr2", "map", "s1", "s2", "iface"}
 var genLeaves = []string{"bool", "int8", "int16", "int32", "int64", "int", "uint8", "uint16", "uint32", "uint64", "uint",
-	"float32", "float64", "string", "time", "MyInt", "MyStr", "MyFloat", "MyBool", "Duration", "MyList", "MyMap", "Rec"}
+	"float32", "float64", "string", "time", "MyInt", "MyStr", "MyFloat", "MyBool", "Duration", "MyU64", "MyU8", "MyI8", "MyF32", "MyList", "MyMap", "Rec"}
 
 func genCases(seed int64, n, depth int) []N {
 	rng := rand.New(rand.NewSource(seed))
